@@ -1,4 +1,262 @@
+/-
+Driver for C14: reads cases of op lines produced by the Go harness (which ran the REAL task_store.Service on a real
+Bolt file with a real TaskMaster), replays every case on the model and on the catalogue spec, and judges
+  * the spec on the OBSERVED answers and listings (accepted ⇒ declared effect, rejected ⇒ no effect, executing ⇔
+    enabled ∧ started, restart restarts every enabled task, template update all-or-none), and
+  * observed = model (answer class, number of storage transactions, listings, TaskMaster's executing set).
+-/
 import Kap.Basic
+import Kap.Spec.C14
+open Kap Kap.C14
 
-/-- Driver for property C14 (replaced by the property's driver). -/
-def main : IO Unit := Kap.driverMain (fun _ _ => .badop "driver not implemented")
+namespace Kap.C14.Drv
+
+def splitTok (s : String) (sep : String) : List String := (s.splitOn sep).filter (fun t => !t.isEmpty)
+
+def kvs (toks : List String) : List (String × String) :=
+  toks.filterMap fun t => match t.splitOn "=" with
+    | k :: v :: rest => some (k, "=".intercalate (v :: rest))
+    | _ => none
+
+def look (m : List (String × String)) (k : String) (d : String := "-") : String :=
+  match m.find? (fun p => p.1 == k) with | some p => p.2 | none => d
+
+def undash (s : String) : String := if s == "-" then "" else s
+def listTok (s : String) : List String := if s == "-" || s.isEmpty then [] else splitTok s ","
+
+def parseInfo (obs : List String) : ScriptInfo :=
+  let m := kvs obs
+  let v := (look m "v" "").toList
+  let vids := ["v0", "v1", "v2", "v3"]
+  { parse := look m "p" == "1", typed := look m "t" == "s", pdbrps := listTok (look m "d"), tmplOk := look m "tv" == "1",
+    valid := fun vid => match vids.findIdx? (· == vid) with
+      | some i => v.getD i '0' == '1'
+      | none => false }
+
+def mkEnv (tab : List (String × ScriptInfo)) : Env := fun s =>
+  match tab.find? (fun p => p.1 == s) with
+  | some p => p.2
+  | none => { parse := false, typed := false, pdbrps := [], tmplOk := false, valid := fun _ => false }
+
+def parseReq (m : List (String × String)) : TaskReq :=
+  { newId := undash (look m "id"), tmpl := undash (look m "tm"), script := undash (look m "s"),
+    dbrps := listTok (look m "d"),
+    status := match look m "st" with | "e" => some true | "d" => some false | _ => none,
+    vars := let v := look m "v"; if v == "-" then "v0" else v }
+
+def parseOp (ts : List String) : Option Op :=
+  match ts with
+  | "create" :: id :: rest => some (.create id (parseReq (kvs rest)))
+  | "update" :: id :: rest => some (.update id (parseReq (kvs rest)))
+  | "delete" :: id :: _ => some (.delete id)
+  | "tcreate" :: id :: rest => some (.tcreate id (undash (look (kvs rest) "s")))
+  | "tupdate" :: id :: rest => let m := kvs rest; some (.tupdate id (undash (look m "id")) (undash (look m "s")))
+  | "tdelete" :: id :: _ => some (.tdelete id)
+  | "restart" :: _ => some .restart
+  | _ => none
+
+/-- One row of the task listing: the definition and the executing flag. -/
+abbrev Row := Task × Bool
+
+def parseRow (s : String) : Option Row :=
+  match s.splitOn ";" with
+  | [id, _ty, st, ex, tm, sc, v, d] =>
+    some ({ id := id, script := sc, vars := v, tmpl := undash tm, dbrps := listTok d, enabled := st == "e" }, ex == "1")
+  | _ => none
+
+def parseRows (tok : String) : Option (List Row) :=
+  if tok == "-" then some [] else (tok.splitOn "|").mapM parseRow
+
+def parseTmplRows (tok : String) : Option (List (String × String)) :=
+  if tok == "-" then some [] else (tok.splitOn "|").mapM fun s =>
+    match s.splitOn ";" with
+    | [id, _ty, sc] => some (id, sc)
+    | _ => none
+
+def renderRow (r : Row) : String :=
+  s!"{r.1.id};{if r.1.enabled then "e" else "d"};{if r.2 then "1" else "0"};{if r.1.tmpl.isEmpty then "-" else r.1.tmpl};{r.1.script};{r.1.vars};{if r.1.dbrps.isEmpty then "-" else ",".intercalate r.1.dbrps}"
+def renderRows (l : List Row) : String := if l.isEmpty then "-" else "|".intercalate (l.map renderRow)
+def renderTmpls (l : List (String × String)) : String := if l.isEmpty then "-" else "|".intercalate (l.map fun p => s!"{p.1};{p.2}")
+
+def modelRows (w : World) : List Row :=
+  w.store.tids.filterMap fun i => (w.store.tasks i).map fun t => (t, w.exec i)
+def modelTmpls (w : World) : List (String × String) :=
+  w.store.mids.filterMap fun i => (w.store.tmpls i).map fun t => (t.id, t.script)
+def specRows (c : Cat) (ids : List String) : List Row :=
+  ids.filterMap fun i => (c.tasks i).map fun t => (t, c.executing i)
+def specTmpls (c : Cat) (mids : List String) : List (String × String) :=
+  mids.filterMap fun i => (c.tmpls i).map fun s => (i, s)
+
+/-- A pending expectation of the spec for the next listing. -/
+structure Pending where
+  cands : List Cat := []                       -- catalogues the spec allows (first match is adopted)
+  dev : Option (String × Cat) := none          -- a recorded deviation clause that applies, with its output
+  devModel : Option String := none             -- deviation whose output is characterised by the model (taints)
+  freeExec : List String := []                 -- tasks whose `started` may be either the old value or `startOK`
+  tup : Option (String × String × String × String) := none   -- template update: (tid, oldScript, newId, newScript)
+  what : String := ""
+
+structure St where
+  tab : List (String × ScriptInfo) := []
+  w : World := {}
+  c : Cat := {}
+  ids : List String := []
+  mids : List String := []
+  fail : List String := []
+  pend : Option Pending := none
+  before : String → Option Task := fun _ => none     -- tasks shown by the previous listing
+  tainted : Bool := false
+  known : Option (String × String) := none
+  mismatch : Option String := none
+  accepted : Nat := 0
+  rejected : Nat := 0
+  restarts : Nat := 0
+
+def St.mm (st : St) (d : String) : St := if st.mismatch.isSome then st else { st with mismatch := some d }
+def St.kn (st : St) (k d : String) : St := if st.known.isSome then st else { st with known := some (k, d) }
+
+def rowsFn (rows : List Row) : String → Option Task := fun i => (rows.find? (fun r => r.1.id == i)).map (·.1)
+
+def execOk (c : Cat) (rows : List Row) (exec : List String) (ids : List String) : Bool :=
+  rows.all (fun r => r.2 == c.executing r.1.id) && ids.all (fun i => exec.contains i == c.executing i)
+
+/-- Does the observed listing agree with catalogue `c` (tasks, templates, executing)? `free` = tasks whose
+executing flag may also be its start oracle outcome (re-attempted by a rolled-back template update). -/
+def agrees (env : Env) (fail : List String) (c : Cat) (ids mids : List String) (rows : List Row) (tm : List (String × String))
+    (exec : List String) (free : List String) : Option Cat :=
+  if rows.map (·.1) != (specRows c ids).map (·.1) then none
+  else if tm != specTmpls c mids then none
+  else
+    -- adopt re-attempt outcomes where the spec leaves them open
+    let c' := free.foldl (fun c i =>
+      match c.tasks i with
+      | some t => if t.enabled && decide (exec.contains i ≠ c.executing i) && (exec.contains i == startOK env fail t)
+                  then setStarted c i (startOK env fail t) else c
+      | none => c) c
+    if execOk c' rows exec ids then some c' else none
+
+def judge (_id : String) (lines : Array String) : Verdict := Id.run do
+  let mut st : St := {}
+  let mut specfail : Option (String × String) := none
+  for l in lines do
+    if specfail.isSome then break
+    let (opT, obs) := splitObs (tokens l)
+    let env := mkEnv st.tab
+    match opT with
+    | ["oracle", sid] => st := { st with tab := (sid, parseInfo obs) :: st.tab }
+    | "list" :: _ =>
+      let m := kvs obs
+      let some rows := parseRows (look m "tasks") | return .badop l
+      let some tm := parseTmplRows (look m "tmpls") | return .badop l
+      let exec := listTok (look m "exec")
+      -- 1. the property on the observed listing
+      if !st.tainted then
+        let p : Pending := st.pend.getD { cands := [st.c], what := "no-request" }
+        -- all-or-none, judged on the two observed listings alone
+        match p.tup with
+        | some (tid, os, nid, ns) =>
+          if !allOrNone env st.ids st.before (rowsFn rows) tid os nid ns && p.devModel.isNone then
+            specfail := some ("template-update-all-or-none", s!"{p.what}: shown {renderRows rows}")
+        | none => pure ()
+        if specfail.isNone then
+          match p.cands.findSome? (fun c => agrees env st.fail c st.ids st.mids rows tm exec p.freeExec) with
+          | some c => st := { st with c := c }
+          | none =>
+            let devHit := match p.dev with
+              | some (k, c) => (agrees env st.fail c st.ids st.mids rows tm exec []).map (fun c => (k, c))
+              | none => none
+            match devHit with
+            | some (k, c) => st := { (st.kn k p.what) with c := c }
+            | none =>
+              let viaModel := rows == modelRows st.w && tm == modelTmpls st.w && st.mismatch.isNone
+              match p.devModel with
+              | some k =>
+                if viaModel then st := { (st.kn k p.what) with tainted := true }
+                else specfail := some ("catalogue", s!"{p.what}: shown {renderRows rows} tmpls {renderTmpls tm} exec {exec}")
+              | none =>
+                let exp := match p.cands with | c :: _ => renderRows (specRows c st.ids) ++ " tmpls " ++ renderTmpls (specTmpls c st.mids) | [] => "?"
+                let defsOk : Bool := match p.cands with
+                  | c :: _ => rows.map (·.1) == (specRows c st.ids).map (·.1) && tm == specTmpls c st.mids
+                  | [] => false
+                let clause := if defsOk then "executing-iff-enabled-and-started" else "api-shows-last-accepted"
+                specfail := some (clause, s!"{p.what}: expected {exp} shown {renderRows rows} tmpls {renderTmpls tm} exec {exec}")
+      st := { st with pend := none, before := rowsFn rows }
+      -- 2. the tie
+      if rows != modelRows st.w then st := st.mm s!"list: model {renderRows (modelRows st.w)} observed {renderRows rows}"
+      if tm != modelTmpls st.w then st := st.mm s!"templates: model {renderTmpls (modelTmpls st.w)} observed {renderTmpls tm}"
+      if !(st.ids.all fun i => exec.contains i == st.w.exec i) then st := st.mm s!"executing: observed {exec}"
+    | _ =>
+      let some op := parseOp opT | return .badop l
+      -- a request that was not followed by a listing: adopt what the spec expects (nothing was observed)
+      match st.pend with
+      | some p =>
+        match p.dev, p.devModel with
+        | some (_, c), _ => st := { st with c := c }
+        | none, some _ => st := { st with tainted := true }
+        | none, none => st := { st with c := p.cands.headD st.c }
+      | none => pure ()
+      let m := kvs opT
+      let fail := listTok (look m "fail")
+      let cut : Option Nat := (look m "crash" "").toNat?
+      let resp : Resp := match obs.head? with
+        | some "ok" => .ok | some "bad" => .bad | some "nf" => .nf | some "fail" => .fail
+        | _ => .fail
+      if obs.head? == some "panic" then return .specfail "no-panic" l
+      if op != .restart && !(["ok", "bad", "nf", "fail"].contains (obs.headD "")) then return .badop l
+      let ntxObs := (look (kvs obs) "ntx" "").toNat?
+      -- ids mentioned
+      let (ids, mids) := match op with
+        | .create id _ => (insId id st.ids, st.mids)
+        | .update id r => (insId id (if r.newId.isEmpty then st.ids else insId r.newId st.ids), st.mids)
+        | .tcreate id _ => (st.ids, insId id st.mids)
+        | .tupdate id n _ => (st.ids, insId id (if n.isEmpty then st.mids else insId n st.mids))
+        | _ => (st.ids, st.mids)
+      st := { st with ids := ids, mids := mids, fail := fail }
+      -- model
+      let (w', mresp) := step Variant.fixed env fail cut st.w op
+      if op != .restart then
+        if mresp != resp then st := st.mm s!"answer of {l}: model {mresp.str}"
+        else if ntxObs != some w'.ntx then st := st.mm s!"transactions of {l}: model {w'.ntx}"
+      st := { st with w := w' }
+      -- spec expectation for the next listing
+      let c := st.c
+      let rs := fun (x : Cat) => accept env fail x .restart
+      let tup := match op with
+        | .tupdate id n s => (c.tmpls id).map fun os => (id, os, if n.isEmpty then id else n, if s.isEmpty then os else s)
+        | _ => none
+      let isDev := devStartFail env fail c op resp
+      let multi := (ntxObs.getD 0) > 1
+      let p : Pending :=
+        match cut with
+        | none =>
+          match op, resp with
+          | .tupdate id _ _, .fail =>
+            { cands := [c], tup := tup, what := l,
+              freeExec := ids.filter (fun i => match c.tasks i with | some t => t.tmpl == id | none => false),
+              devModel := some "template-update-rollback-incomplete" }
+          | _, _ =>
+            { cands := [specStep env fail c op resp], tup := tup, what := l,
+              dev := if isDev then some ("start-failure-after-commit", devStartFailOut env fail c op) else none }
+        | some k =>
+          -- crash: the client got no answer; the request took effect or it did not, then the process restarted
+          let eff := if resp = .ok || isDev then [rs (accept env fail c op)] else []
+          { cands := eff ++ [rs c], what := l,
+            devModel := if multi && 0 < k && k < ntxObs.getD 0 then some "crash-between-transactions" else none }
+      st := { st with pend := some p }
+      if op == .restart then st := { st with restarts := st.restarts + 1 }
+      else if resp = .ok then st := { st with accepted := st.accepted + 1 }
+      else st := { st with rejected := st.rejected + 1 }
+  match specfail with
+  | some (c, d) => return .specfail c d
+  | none => pure ()
+  match st.mismatch with
+  | some d => return .mismatch d
+  | none => pure ()
+  match st.known with
+  | some (k, d) => return .known k d
+  | none => pure ()
+  return .ok (st.accepted ≥ 3 && st.rejected + st.restarts ≥ 1) st.w.br.reverse
+
+end Kap.C14.Drv
+
+def main : IO Unit := Kap.driverMain Kap.C14.Drv.judge
